@@ -43,6 +43,41 @@ CHECKS = {
              'body. Textually identical statements in different scopes are the non-trivial cases.',
         note='Trusted: projection/renderer/TLC. Names limited to the pool a, q, r, f, h, k, g.',
         design='5/C07', technique='TLA+ scoping model (binding by construction) + TLC-enumerated collision programs replayed into the parser + TLC validation'),
+    'C03': dict(
+        text='ExecEnum (AstEnum + JaqalExec) enumerates programs over an exact gate family (X H S R Pf CX SW CR CCX F, a gate '
+             'without unitary, idle gates) on 3 qubits reached directly, through a reversed slice alias, a named qubit, macro '
+             'parameters and let-valued parameters, in loops and parallel blocks, and checks NormPreserved on the spec. Each '
+             'program is run by run_jaqal_circuit with hook H3 on; TLC recomputes, with exact Gaussian-integer arithmetic '
+             'over powers of sqrt 2 and the little-endian convention of the statement, the state of every visited '
+             'subcircuit and compares it with the reported state_vector, the probabilities and the per-gate (qubits, '
+             'arguments) events.',
+        note='Trusted: harness/gates.py matrices (they are the gate set under test and are cross-checked by the vector clause), '
+             'float->exact conversion with tolerance 1e-9, projection/renderer. Arbitrary real angles are covered only as '
+             'arguments passed correctly (integer multiples of pi/2 here).',
+        design='5/C03', technique='TLA+ exact emulator spec + TLC-enumerated programs replayed into the emulator + TLC trace validation of hook events and state vectors'),
+    'C08': dict(
+        text='ExecEnum enumerates nestings of loops (0, 1, 2, let-valued), sequential / parallel blocks, subcircuit blocks, '
+             'explicit prepare/measure and a macro containing a subcircuit; TLC emits with each program the number of visits of '
+             'the unrolled program. run_jaqal_circuit and parse_jaqal_output_list (on an output list of that length, '
+             'strings and ints alternating) run under a CPU watchdog; TLC validates the visit sequence (readouts and hook '
+             'H1), readout numbering, attribution, frequencies, non-zero probability of samples, termination.',
+        note='Asserted domain: programs C12 accepts in which every unrolled prepare/measure pair is a flat pair. One open '
+             'known finding (readout per prepare reached).',
+        design='5/C08', technique='TLA+ walk semantics (Unroll/VisitsOf) + TLC-enumerated programs replayed into emulator and output parser + TLC trace validation'),
+    'C12': dict(
+        text='ExecEnum enumerates all placements of prepare_all / measure_all / a gate / subcircuit blocks over nested '
+             'sequential blocks, parallel blocks, loops (0,1,2,let) and a macro; TLC computes DiscoverRule (the bracket rule '
+             'written declaratively on the flat order) and validates accept/reject, the number of subcircuits and that the '
+             'error message names a violated rule.',
+        note='Bounded to <= 3 (quick) / 5 (thorough) nodes; message families are mapped to rules by literal patterns.',
+        design='5/C12', technique='TLA+ declarative bracket rule + TLC-enumerated placements replayed into run_jaqal_circuit + TLC validation'),
+    'C15': dict(
+        text='For every subcircuit and readout of the C03 and C08 runs (emulator and hardware-output parser) TLC checks the '
+             'views recorded from the result objects: as_str has n characters with qubit 0 leftmost, string keys enumerate '
+             'all 2^n outcomes in integer order, string and integer views agree, probabilities are normalised, string and '
+             'integer hardware outputs are interpreted identically, frequencies count the readouts.',
+        note='n in {2,3}; normalisation judged in floating point with 1e-9.',
+        design='5/C15', technique='TLA+ bit-order operators + recorded result views validated by TLC'),
 }
 
 NOT_YET = {}
